@@ -1391,6 +1391,42 @@ let run_cconc (path : string) =
    with End_of_file -> ());
   close_in ic
 
+(* ---------- C05: the file-system program (CrashDir.v) of every Delete of a history, in the canonical event language
+   of the FS tap: "remove <file>", "rename <from> <to>", "create <file>" *)
+let run_delprog (path : string) =
+  let ic = open_in path in
+  let st = ref (fresh ()) in
+  let opidx = ref 0 in
+  let pad z = Printf.sprintf "%020d" (int_of_z z) in
+  let render (o : fsop) : string list =
+    (match o with
+     | RemoveIndex b -> ["remove " ^ pad b ^ ".index"]
+     | RemoveLog b -> ["remove " ^ pad b ^ ".log"]
+     | RenameTmpLog b -> ["rename T.log " ^ pad b ^ ".log"]
+     | RenameTmpIndex b -> ["rename T.index " ^ pad b ^ ".index"]
+     | RemoveTmp -> ["remove T.index"; "remove T.log"]
+     | CreateHead (b, _) -> ["create " ^ pad b ^ ".log"; "create " ^ pad b ^ ".index"]) in
+  (try
+     while true do
+       let line = String.trim (input_line ic) in
+       if line = "" || line.[0] = '#' then ()
+       else begin
+         let f = Array.of_list (List.filter (fun s -> s <> "") (String.split_on_char ' ' line)) in
+         if f.(0) = "case" then begin st := fresh (); opidx := 0; print_endline line end
+         else begin
+           (if f.(0) = "del" && Array.length f > 1 then begin
+               let offs = parse_offsets f.(1) in
+               let prog = delete_prog !st.s offs in
+               print_endline (Printf.sprintf "delprog %d %s" !opidx (String.concat " ; " (List.concat (List.map render prog))))
+             end);
+           ignore (step !st f);
+           incr opidx
+         end
+       end
+     done
+   with End_of_file -> ());
+  close_in ic
+
 let () =
   match Array.to_list Sys.argv with
   | _ :: "hist" :: path :: _ -> run_hist path
@@ -1400,4 +1436,5 @@ let () =
   | _ :: "flock" :: path :: _ -> run_flock path
   | _ :: "notify" :: path :: _ -> run_notify path
   | _ :: "cconc" :: path :: _ -> run_cconc path
+  | _ :: "delprog" :: path :: _ -> run_delprog path
   | _ -> prerr_endline "usage: kvmodel hist <file>"; exit 2
